@@ -3,7 +3,7 @@ import re, runner, domfam
 
 def main(tier, seed, t0, only=None):
     q = tier == 'quick'
-    plan = [(1, 3, 0, 0, 2), (1, 3, 0, 1, 2), (2, 2, 0, 0, 16), (2, 2, 0, 1, 16), (2, 0, 0, 0, 8), (1, 2, 17, 0, 2)]
+    plan = [(1, 3, 0, 0, 2), (1, 3, 0, 1, 2), (1, 0, 0, 3, 2), (2, 0, 0, 3, 8), (2, 2, 0, 0, 16), (2, 2, 0, 1, 16), (2, 0, 0, 0, 8), (1, 2, 17, 0, 2)]
     if not q: plan += [(3, 2, 0, 0, 16), (2, 3, 0, 0, 16), (2, 3, 0, 1, 16)]
     J = domfam.jobs('C18', 4, tier, plan=plan) + domfam.jobs('C18', 4, tier, defines=('ALLOC_SIMPLE',), plan=plan[:4])
     if only: J = [j for j in J if re.search(only, j.name)]
